@@ -116,6 +116,7 @@ class InterpBase:
         self.global_cache: Dict[Tuple[str, str], Val] = {}
         self.global_cells: Dict[str, Cell] = {}
         self.ordinal_tags: set = set()
+        self.type_test_tags: Dict[str, str] = {}
         self.field_version: Dict[Tuple[str, str], int] = {}
         self.default_cache: Dict[int, Val] = {}
         self.hooks: Dict[str, Any] = {}
